@@ -43,7 +43,7 @@ FsOfJson(j) ==
 
 NoCall == [fn |-> "none"]
 
-InitG == [scen |-> "", mode |-> "clean", src |-> <<>>, snap |-> <<>>, calls |-> <<>>,
+InitG == [scen |-> "", mode |-> "clean", src |-> <<>>, snap |-> <<>>, partial |-> {}, calls |-> <<>>,
           saved |-> <<>>, healthy |-> EmptyFs, damaged |-> FALSE, dmgdel |-> FALSE]
 
 V(mon, detail) == {<<g.scen, mon, l, ToString(detail)>>}
@@ -53,8 +53,8 @@ If(c, S) == IF c THEN S ELSE {}
 (* State monitors.                                                         *)
 (***************************************************************************)
 \* every complete version made in this trace restores to the tree it was made from
-SnapBroken(f, snap) ==
-    {b \in DOMAIN snap : Complete(f, b) /\ RestoreOf(f, b) # snap[b]}
+SnapBroken(f, snap, partial) ==
+    {b \in (DOMAIN snap) \ partial : Complete(f, b) /\ RestoreOf(f, b) # snap[b]}
 
 \* every file entry recorded in a band made in this trace restores to the bytes
 \* that file had in the source when the band was made
@@ -67,15 +67,17 @@ RecordedWrong(f, snap) ==
                      /\ FileBytes(f, x) = snap[b][x.p].c )} }
             : b \in (DOMAIN snap) \cap Bands(f) }
 
-StateMonitors(f, mode, snap, keyt) ==
+\* `partial` = versions written under injected storage faults: they may lack entries (with an
+\* error reported), so they are held to RecordedBytes and NoDangling but not to their snapshot
+StateMonitors(f, mode, snap, partial, keyt) ==
     IF mode = "clean" THEN
            {<<"Format", x>> : x \in FormatViol(f)}
       \cup {<<"NoDangling", x>> : x \in Dangling(f, Bands(f))}
-      \cup {<<"SnapRestores", b>> : b \in SnapBroken(f, snap)}
+      \cup {<<"SnapRestores", b>> : b \in SnapBroken(f, snap, partial)}
       \cup (IF keyt = "Hunk" THEN {<<"RecordedBytes", x>> : x \in RecordedWrong(f, snap)} ELSE {})
     ELSE IF mode = "fault" THEN
            {<<"NoDangling", x>> : x \in Dangling(f, Bands(f))}
-      \cup {<<"SnapRestores", b>> : b \in SnapBroken(f, snap)}
+      \cup {<<"SnapRestores", b>> : b \in SnapBroken(f, snap, partial)}
       \cup (IF keyt = "Hunk" THEN {<<"RecordedBytes", x>> : x \in RecordedWrong(f, snap)} ELSE {})
     ELSE {}
 
@@ -140,6 +142,7 @@ DoOp(r) ==
                    /\ r.inj = "" /\ c.band = -1
         firstmaker == newband /\ r.key.b \notin Bands(fs)
         snap2 == IF firstmaker THEN Put(g.snap, r.key.b, c.want) ELSE g.snap
+        part2 == IF firstmaker /\ c.injected THEN g.partial \cup {r.key.b} ELSE g.partial
         blkw == c.fn = "backup" /\ r.verb = "write" /\ r.key.t = "Block" /\ r.res = "ok" /\ r.inj = ""
         c2  == IF c.fn = "none" THEN c
                ELSE [c EXCEPT !.band = IF newband THEN r.key.b ELSE @,
@@ -147,12 +150,12 @@ DoOp(r) ==
         changed == f2 # fs
     IN
     /\ fs' = f2
-    /\ g' = [g EXCEPT !.snap = snap2,
+    /\ g' = [g EXCEPT !.snap = snap2, !.partial = part2,
                       !.calls = IF c.fn = "none" THEN @ ELSE Put(@, r.actor, c2)]
     /\ viol' = viol
           \cup UNION {V(x[1], x[2]) : x \in OpMonitors(r, c)}
           \cup (IF changed /\ ~g.damaged
-                THEN UNION {V(x[1], x[2]) : x \in StateMonitors(f2, g.mode, snap2, r.key.t)}
+                THEN UNION {V(x[1], x[2]) : x \in StateMonitors(f2, g.mode, snap2, part2, r.key.t)}
                 ELSE {})
 
 (***************************************************************************)
@@ -177,25 +180,35 @@ AllReused(f0, f, b) ==
         x.k = "File" /\ x.a # <<>> => \E e0 \in SeqRange(bl) : Reusable(f0, e0, x) /\ e0.a = x.a
 
 BackupRetMonitors(r, c) ==
-    LET success == r.res = "ok" /\ r.errors = 0 /\ r.mon_errors = 0 /\ ~r.panic
+    LET \* "no error returned and none counted"
+        success == r.res = "ok" /\ r.errors = 0 /\ ~r.panic
+        silent  == success /\ r.mon_errors = 0
         b == c.band
         good == b # -1 /\ Complete(fs, b) /\ RestoreOf(fs, b) = c.want
+        \* an unreadable head in the archive is legitimately grumbled about when stitching the basis
+        cleanStart == \A x \in Bands(c.fs0) : HeadOK(c.fs0, x)
+        faultfree == g.mode = "clean" /\ ~c.injected /\ ~g.damaged
     IN
-       If(r.panic, {<<"Panic", r.pmsg>>})
+       \* after a simulated kill the process keeps running with a dead storage; what it does
+       \* then (including panicking) is not behaviour of the real system
+       If(r.panic /\ ~r.crashed, {<<"Panic", r.pmsg>>})
   \cup If(r.timeout, {<<"Hang", "backup">>})
-  \cup If(g.mode = "clean" /\ ~c.injected /\ ~g.damaged /\ ~success, {<<"BackupNotClean", <<r.res, r.errors, r.mon_errors>> >>})
-  \cup If(success /\ ~r.crashed /\ ~good, {<<"CompleteSuccessWrong", b>>})
+  \cup If(faultfree /\ (~success \/ (cleanStart /\ r.mon_errors # 0)),
+          {<<"BackupNotClean", <<r.res, r.errors, r.mon_list>> >>})
+  \cup If(~r.crashed /\ ~good /\ (silent \/ (faultfree /\ success)),
+          {<<"CompleteSuccessWrong", <<b, IF b # -1 /\ HeadOK(fs, b) THEN TreeDiff(c.want, RestoreOf(fs, b)) ELSE {}>> >>})
   \cup If(r.res = "ok" /\ ~r.crashed /\ r.written_blocks # c.nblk, {<<"WrittenBlocksStat", <<r.written_blocks, c.nblk>> >>})
-  \cup If(success /\ ~r.crashed /\ g.mode = "clean" /\ ~g.damaged /\ b # -1,
+  \cup If(success /\ ~r.crashed /\ faultfree /\ b # -1,
           {<<"NotReused", p>> : p \in NotReused(c.fs0, fs, b)}
           \cup If(AllReused(c.fs0, fs, b) /\ c.nblk # 0, {<<"UnchangedWroteBlocks", c.nblk>>}))
 
 DeleteRetMonitors(r, c) ==
     LET D == SeqRange(c.bands) IN
-       If(r.panic, {<<"Panic", r.pmsg>>})
+       If(r.panic /\ ~r.crashed, {<<"Panic", r.pmsg>>})
   \cup If(r.timeout, {<<"Hang", "delete">>})
   \cup If(c.dry /\ ~r.crashed /\ fs # c.fs0, {<<"DryRunChanged", 0>>})
-  \cup If(r.res # "ok" /\ ~c.injected /\ ~r.panic /\ g.mode = "clean" /\ fs # c.fs0, {<<"FailedDeleteChanged", r.res>>})
+  \cup If(r.res \in {"err:DeleteWithIncompleteBackup", "err:GarbageCollectionLockHeld"} /\ ~c.injected /\ fs # c.fs0,
+          {<<"RefusedDeleteChanged", r.res>>})
   \cup If(r.res = "ok" /\ ~c.dry /\ ~r.crashed,
              If(Bands(fs) # Bands(c.fs0) \ D, {<<"DeleteWrongBands", 0>>})
         \cup If(~(PresentBlocks(c.fs0) \cap Referenced(fs, Bands(fs)) \subseteq PresentBlocks(fs)),
@@ -218,7 +231,7 @@ DoRet(r) ==
 AllReadable(f, es) == \A e \in SeqRange(es) : EntryReadable(f, e)
 
 RestoreMonitors(r) ==
-    LET T   == TreeOfNodes(r.tree)
+    LET T0  == TreeOfNodes(r.tree)
         M   == SeqRange(r.match)
         S   == r.subtree
         lc  == LatestClosed(fs)
@@ -226,6 +239,10 @@ RestoreMonitors(r) ==
         plain == ~r.has_subtree /\ r.match = <<>> /\ r.excl = <<>>
         es  == IF b # -1 /\ HeadOK(fs, b) THEN Listing(fs, b, S, M) ELSE <<>>
         judged == b # -1 /\ HeadOK(fs, b) /\ ~g.damaged /\ r.dest # "nonempty"
+        \* the destination directory itself always exists; it only counts when the
+        \* listing has an entry for the root
+        T   == IF \E e \in SeqRange(es) : e.p = Root THEN T0
+               ELSE [p \in (DOMAIN T0) \ {Root} |-> T0[p]]
     IN
        If(r.panic, {<<"Panic", r.pmsg>>})
   \cup If(r.timeout, {<<"Hang", "restore">>})
@@ -236,9 +253,9 @@ RestoreMonitors(r) ==
           {<<"RestoreFailed", <<b, r.res, r.mon_errors>> >>})
   \cup If(judged /\ r.res = "ok" /\ AllReadable(fs, es) /\
              TreeSel(T, S, {}) # (IF plain THEN RestoreOf(fs, b) ELSE TreeOfEntries(fs, es)),
-          {<<"RestoreDiffersFromListing", b>>})
-  \cup If(judged /\ r.res = "ok" /\ plain /\ Complete(fs, b) /\ b \in DOMAIN g.snap /\ T # g.snap[b],
-          {<<"RestoreDiffersFromSnapshot", b>>})
+          {<<"RestoreDiffersFromListing", <<b, TreeDiff(IF plain THEN RestoreOf(fs, b) ELSE TreeOfEntries(fs, es), TreeSel(T, S, {}))>> >>})
+  \cup If(judged /\ r.res = "ok" /\ plain /\ Complete(fs, b) /\ b \in (DOMAIN g.snap) \ g.partial /\ T # g.snap[b],
+          {<<"RestoreDiffersFromSnapshot", <<b, TreeDiff(g.snap[b], T)>> >>})
 
 ListMonitors(r) ==
     LET b == r.band
@@ -259,7 +276,10 @@ ValidateMonitors(r) ==
     LET loud == r.mon_errors > 0 \/ r.res # "ok" IN
        If(r.panic, {<<"Panic", r.pmsg>>})
   \cup If(r.timeout, {<<"Hang", "validate">>})
-  \cup If(~g.damaged /\ g.mode = "clean" /\ loud, {<<"ValidateFalseAlarm", <<r.res, r.mon_errors>> >>})
+  \* healthy = produced by fault-free operations, interrupted backups counted once their
+  \* header exists (the statement's wording); a head-less leftover is outside the clause
+  \cup If(~g.damaged /\ g.mode = "clean" /\ loud /\ (\A b \in Bands(fs) : HeadOK(fs, b)),
+          {<<"ValidateFalseAlarm", <<r.res, r.mon_list>> >>})
   \cup If(g.damaged /\ ~r.panic /\ ~loud /\ DamageMatters(g.healthy, fs) /\ (~r.quick \/ g.dmgdel),
           {<<"ValidateSilent", r.quick>>})
 
@@ -292,14 +312,14 @@ DoDamage(r) ==
     /\ UNCHANGED <<fs, viol>>
 
 DoSave(r) ==
-    /\ g' = [g EXCEPT !.saved = Append(@, [fs |-> fs, src |-> g.src, snap |-> g.snap,
+    /\ g' = [g EXCEPT !.saved = Append(@, [fs |-> fs, src |-> g.src, snap |-> g.snap, partial |-> g.partial,
                                             healthy |-> g.healthy, damaged |-> g.damaged, dmgdel |-> g.dmgdel])]
     /\ UNCHANGED <<fs, viol>>
 
 DoReset(r) ==
     LET s == g.saved[Len(g.saved)] IN
     /\ fs' = s.fs
-    /\ g' = [g EXCEPT !.src = s.src, !.snap = s.snap, !.calls = <<>>,
+    /\ g' = [g EXCEPT !.src = s.src, !.snap = s.snap, !.partial = s.partial, !.calls = <<>>,
                       !.healthy = s.healthy, !.damaged = s.damaged, !.dmgdel = s.dmgdel]
     /\ viol' = viol
 
@@ -334,7 +354,7 @@ Spec == Init /\ [][Next]_vars
 RECURSIVE SetToSeq(_)
 SetToSeq(S) == IF S = {} THEN <<>> ELSE LET x == CHOOSE y \in S : TRUE IN <<x>> \o SetToSeq(S \ {x})
 
-Report == l > Len(Rec) => PrintT(<<"VIOLJSON", ToJson(SetToSeq(viol))>>)
+Report == l > Len(Rec) => JsonSerialize(IOEnv.VIOLOUT, SetToSeq(viol))
 
 \* the whole trace was consumed
 Accepted == TLCGet("stats").diameter - 1 = Len(Rec)
